@@ -31,3 +31,12 @@ Example C06_example : new_message 48 [] = [250; 255; 48; 0; 209] /\
   firstn 6 (new_message 54 (repeat 250 255)) = [250; 255; 54; 255; 0; 255] /\
   error_code (new_message 66 [33]) = Some 33 /\ error_code (new_message 66 [1; 2]) = Some 0.
 Proof. repeat split. Qed.
+
+(* The model IS the code: NewMessage as REGENERATED statement by statement from message.go on this run (make, element
+   writes, PutUint16 and copy into sub-slices, the checksum loop) builds exactly the frame of the model, for every
+   identifier and every payload of any length *)
+Require Import Base.GoBytes Gen.Bytes Tie.BytesAgree.
+Theorem C06_new_message_model_is_the_source : forall mid p, (0 <= mid < 256)%Z ->
+  g_NewMessage mid p = Val (new_message (Z.to_N mid) p).
+Proof. exact new_message_agrees. Qed.
+Print Assumptions C06_new_message_model_is_the_source.
